@@ -310,6 +310,9 @@ class Printer(object):
                     fr = Fraction(c.args[0])
                     num = '(%s*%s)' % (self.p(x), self.p(E.const(Fraction(fr.numerator)))) if fr.numerator != 1 else self.p(x)
                     return '(%s/%d)' % (num, fr.denominator)
+        if op in ('==', '!=') and e.args[0].ty == BOOL and e.args[1].ty == BOOL:
+            # compare truth values, not representations (a nondet _Bool need not be canonical)
+            return '((!!%s) %s (!!%s))' % (self.p(e.args[0]), op, self.p(e.args[1]))
         if op in ('+', '-', '*', '/', '%', '<', '<=', '>', '>=', '==', '!=', '&&', '||'):
             return '(%s %s %s)' % (self.p(e.args[0]), op, self.p(e.args[1]))
         raise ValueError('cannot print op %r' % op)
